@@ -26,7 +26,15 @@ def gen_system(rng):
     used_tids, used_pids = set(), set()
     rk = list(range(40))
     rng.shuffle(rk)
-    names = rng.sample(["zeta", "alpha.x", "mid", "Beta", "n10", "n9"], nlooms)
+    if rng.random() < 0.35:
+        # names whose host part (up to the first dot) is a prefix of another's, followed by
+        # a character on either side of '.' in byte order: name order != (host, name) order
+        fam = rng.choice([["node1.0", "node1-mic0.0", "node1.1", "node10.0", "node1+x.0"],
+                          ["host", "host-ib0", "host.1", "host0"],
+                          ["n.9", "n.10", "n-1.9", "n_1.9", "n,1.9"]])
+        names = rng.sample(fam, min(nlooms, len(fam)))
+    else:
+        names = rng.sample(["zeta", "alpha.x", "mid", "Beta", "n10", "n9"], nlooms)
     for li in range(nlooms):
         ncpus = rng.randint(1, 4)
         phy = rng.sample(range(0, 64), ncpus)
